@@ -10,6 +10,11 @@ BASELINE = ("cd /repo && /venv/bin/python -m pytest -ra -q -p no:cacheprovider -
 
 # property -> (category, technique, text, note, design_ref)
 CHECKS = {
+    "C01": ("exploration",
+            "property-based testing (Hypothesis): generated histories x query trees, reference set-algebra evaluator + differential over access paths",
+            "Generated commit/merge/delete histories and query trees; every query is evaluated through ten access paths on the real index and compared, in both directions, with a reference evaluator over the document model and with each other. Sampling of an unbounded space: small corpora (<=60 docs), depth<=4 trees.",
+            "Trusts wv/refquery.py as the documented meaning; FuzzyTerm checked as an interval (variant of edit distance decided in C19); Regex = re.match.",
+            "DESIGN.md section 2 C01"),
     "C20": ("exploration",
             "property-based testing (Hypothesis): round-trips and model-based operation programs vs dict/list/set/bisect oracles",
             "Generated key/value multisets, ordered key sets with probes, integer lists, external-sort inputs, "
